@@ -21,7 +21,7 @@ RULE = ('cases: 4..30 header-carrying calls (send_headers requests / responses /
         'table; distinct by trace')
 ASSUMPTIONS = ['the mirror decoder (hpack.Decoder) is given the table-size limit the harness announced']
 TIERS = {'quick': {'cases': 5000, 'size': 300},
-         'thorough': {'cases': 200000, 'size': 400}}
+         'thorough': {'cases': 600000, 'size': 400}}
 
 SHARED = [(b'user-agent', b'h2verif/1.0 (long enough to index)'), (b'accept', b'text/html,application/xml'),
           (b'x-request-id', b'0123456789abcdef'), (b'cache-control', b'no-cache'),
